@@ -53,6 +53,8 @@ def _run_variant(args):
             mod.run(ctx)
         known = {k["key"] for k in load_known() if k.get("property") == prop}
         new_v = [v for v in ctx.violations if v["key"] not in known]
+        if not new_v and ctx.deferred_errors:
+            return ("analysis-error", [], ctx.deferred_errors[0])
         return ("violations" if new_v else "clean", [v["key"] for v in new_v], "")
     except AnalysisError as exc:
         return ("analysis-error", [], str(exc))
@@ -62,7 +64,7 @@ def run(prop: str, ctx: Context, seed: int) -> int:
     try:
         spec = importlib.import_module(f"sa.mutants.{prop.lower()}")
     except ModuleNotFoundError:
-        return 0
+        spec = None
     mutants = getattr(spec, "MUTANTS", [])
     twins = getattr(spec, "TWINS", [])
     jobs = [(prop, ctx.repo.root, m["edits"]) for m in mutants] + [(prop, ctx.repo.root, t["edits"]) for t in twins]
@@ -111,6 +113,19 @@ def run(prop: str, ctx: Context, seed: int) -> int:
         }
         json.dump(ev, open(ev_path, "w"), indent=1, default=str)
     print(f"[{prop}] self-validation: mutants killed {killed}/{applied}, twins silent {silent}/{twins_applied}")
+    # independently seeded changes recorded as caught by this property (applied in memory)
+    from . import seeded
+    src_rc, seed_rows = seeded.run(prop, ctx)
+    if seed_rows:
+        caught = sum(1 for r in seed_rows if r["status"] == "violations")
+        print(f"[{prop}] seeded changes: caught {caught}/{len(seed_rows)} ({', '.join(r['seed'] for r in seed_rows)})")
+        if os.path.exists(ev_path) and os.environ.get("VERIF_NO_EVIDENCE") != "1":
+            ev = json.load(open(ev_path))
+            ev["coverage"].setdefault("self_validation", {})["seeded_changes"] = seed_rows
+            json.dump(ev, open(ev_path, "w"), indent=1, default=str)
+    if src_rc:
+        print(f"ANALYSIS-ERROR property={prop} a seeded change recorded as caught is no longer reported")
+        return 2
     if bad:
         for b in bad:
             print(f"  CHECKER-DEFECT {b}")
